@@ -78,6 +78,32 @@ class BookDaemon(D.Daemon):
         return rec
 
 
+class Slots:
+    """Bounds the number of TLC worker threads running at once (the exhaustive runs, generators and validators of one
+    check are started from several threads)."""
+
+    def __init__(self, total):
+        self.total = total
+        self.free = total
+        self.cv = threading.Condition()
+
+    def run(self, n, fn, *a, **kw):
+        n = min(n, self.total)
+        with self.cv:
+            while self.free < n:
+                self.cv.wait()
+            self.free -= n
+        try:
+            return fn(*a, **kw)
+        finally:
+            with self.cv:
+                self.free += n
+                self.cv.notify_all()
+
+
+SLOTS = Slots(int(os.environ.get("VERIF_C10_SLOTS", "20")))
+
+
 class _B:
     pass
 
@@ -111,8 +137,8 @@ def book_model_check(ctx, name, table, workers=16, timeout=1500, coverage=False,
     with open(cfg, "w") as f:
         f.write(book_cfg_text(table, **kw))
     outp = os.path.join(ctx.scratch, "book_%s.out" % name)
-    r = ctx.tlc("MCBook", cfg, workers=workers, timeout=timeout, stdout_path=outp, heap="12g", seed=ctx.seed,
-                coverage=coverage)
+    r = SLOTS.run(workers, ctx.tlc, "MCBook", cfg, workers=workers, timeout=timeout, stdout_path=outp, heap="6g",
+                  seed=ctx.seed, coverage=coverage)
     if not r.ok:
         raise MachineryError("model MCBook/%s violates %s on the unchanged specification:\n%s"
                              % (name, r.violated, r.violation_text[:3000]))
@@ -139,7 +165,7 @@ def long_model_check(ctx, name, ids, workers=8, timeout=900, **kw):
     cfg = os.path.join(ctx.scratch, "long_%s.cfg" % name)
     with open(cfg, "w") as f:
         f.write(long_cfg_text(ids, **kw))
-    r = ctx.tlc("BookLong", cfg, workers=workers, timeout=timeout, heap="8g", capture_printed=False)
+    r = SLOTS.run(workers, ctx.tlc, "BookLong", cfg, workers=workers, timeout=timeout, heap="5g", capture_printed=False)
     if not r.ok:
         raise MachineryError("model BookLong/%s violates %s on the unchanged specification:\n%s"
                              % (name, r.violated, r.violation_text[:3000]))
@@ -152,8 +178,8 @@ def long_generate(ctx, name, ids, depth, num, real_time=False, timeout_on=True, 
     with open(cfg, "w") as f:
         f.write(long_cfg_text(ids, timeout_on=timeout_on, real_time=real_time, gen_depth=depth))
     outp = os.path.join(ctx.scratch, "gen_%s.out" % name)
-    r = ctx.tlc("BookLong", cfg, workers=workers, timeout=timeout, heap="4g", simulate="num=%d" % num, depth=depth + 1,
-                seed=(ctx.seed if seed is None else seed), stdout_path=outp)
+    r = SLOTS.run(workers, ctx.tlc, "BookLong", cfg, workers=workers, timeout=timeout, heap="3g", simulate="num=%d" % num,
+                  depth=depth + 1, seed=(ctx.seed if seed is None else seed), stdout_path=outp)
     if not r.ok:
         raise MachineryError("generator BookLong/%s violates %s on the unchanged specification:\n%s"
                              % (name, r.violated, r.violation_text[:3000]))
@@ -482,7 +508,7 @@ def rt_replay(ctx, histories, svcs, timing, tag="rt", nthreads=64, eof_wait=True
 # ---- validation ---------------------------------------------------------------------------------------------
 def validate(ctx, trace_path, nlines, timeout=1200, heap="3g"):
     """TLC BookTrace on one trace file; returns (violations, drifts of B, of the ledger, of the generator spec)."""
-    r = ctx.tlc("BookTrace", "BookTrace.cfg", workers=1, timeout=timeout, env={"TRACE": trace_path}, heap=heap)
+    r = SLOTS.run(1, ctx.tlc, "BookTrace", "BookTrace.cfg", workers=1, timeout=timeout, env={"TRACE": trace_path}, heap=heap)
     if not r.ok:
         raise MachineryError("trace validation run failed (%s):\n%s" % (r.violated, r.violation_text[:3000]))
     if r.depth != nlines + 1 and r.distinct != nlines + 1:
